@@ -92,6 +92,12 @@ func c13Pass(r *core.Rand, jitter bool) []c13Stmt {
 	add("create", "CREATE TABLE c (k INT, s VARCHAR(10), f BOOLEAN, b BIGINT)", "dirty2")
 	add("insert", "INSERT INTO c VALUES (1, 'x', true, 5)", "wal")
 	add("select", "SELECT * FROM c", "")
+	// further tables, each CREATE held open: the seventh table of a database
+	// is the one whose catalog row splits the catalog's root page
+	for i := 1; i <= 5; i++ {
+		add("create", fmt.Sprintf("CREATE TABLE e%d (k INT, s VARCHAR(20))", i), "dirty2")
+	}
+	add("insert", "INSERT INTO e4 VALUES (1, 'x')", "")
 	return out
 }
 
@@ -99,7 +105,13 @@ func c13Script(mode string, pass []c13Stmt) script {
 	var s script
 	s.cfg(false, 0)
 	s.k("init")
-	s.add(proto.Op{K: "c13setup", S: mode})
+	slow := 0
+	if mode == "log-slow" {
+		// every page write of a flush takes 15 ms: whatever runs while pages
+		// are being written has time to show up in the event log
+		mode, slow = "log", 15
+	}
+	s.add(proto.Op{K: "c13setup", S: mode, N: slow})
 	for _, st := range pass {
 		if st.gapMs > 0 {
 			s.add(proto.Op{K: "sleep", N: st.gapMs})
@@ -193,7 +205,7 @@ func parseRaceLogs(dir string) []raceReport {
 }
 
 func checkC13(c *core.Ctx) []core.Floor {
-	c.Rule = "one session goroutine against the REAL 100 ms flush goroutine. Each pass executes every statement kind {CREATE TABLE, INSERT single, INSERT multi-row (splitting; also 300 rows), UPDATE and DELETE (also over 300 rows), SELECT scan, SELECT join} with placements {idle gap > 1 tick before and after, park of > 2 ticks at the statement's 2nd page change, park of > 2 ticks inside the log append, SELECT: park at a cache miss}, on fresh pages and after a reload (cold cache). (a) -race build: handlers only sleep on the session goroutine and add no synchronisation; every data-race report with mkdb frames is a violation (happens-before reasoning, independent of the observed timing). (b) plain build: every hook event is logged with its goroutine id; offline checker: no page or header write by ANY goroutine between a statement's first page change and the completion of its log append (CREATE TABLE: its last page change); the same checker runs over passes with a page cache of 10-24 pages and statements that dirty hundreds of pages (the statement may be refused with 'cache is full', but must not push its own half-done pages to the data file). Distinct = (pass, statement, placement); non-trivial = the statement was actually held open (parked) across more than two timer periods."
+	c.Rule = "one session goroutine against the REAL 100 ms flush goroutine. Each pass executes every statement kind {CREATE TABLE, INSERT single, INSERT multi-row (splitting; also 300 rows), UPDATE and DELETE (also over 300 rows), SELECT scan, SELECT join} with placements {idle gap > 1 tick before and after, park of > 2 ticks at the statement's 2nd page change, park of > 2 ticks inside the log append, SELECT: park at a cache miss}, on fresh pages and after a reload (cold cache); eight tables are created in one database, each CREATE held open, so that the CREATE whose catalog row splits the catalog root is among them. (a) -race build: handlers only sleep on the session goroutine and add no synchronisation; every data-race report with mkdb frames is a violation (happens-before reasoning, independent of the observed timing). (b) plain build (once as is, once with every page write of a flush slowed down to 15 ms by a sleep in the write hook): every hook event is logged with its goroutine id; offline checker: no page or header write by ANY goroutine between a statement's first page change and the completion of its log append (CREATE TABLE: its last page change); the same checker runs over passes with a page cache of 10-24 pages and statements that dirty hundreds of pages (the statement may be refused with 'cache is full', but must not push its own half-done pages to the data file). Distinct = (pass, statement, placement); non-trivial = the statement was actually held open (parked) across more than two timer periods."
 	c.Assume = []string{"a park of 230-400 ms spans at least two 100 ms ticks", "handlers of the race build run on the session goroutine only and share nothing with the flusher"}
 	passes := 2
 	if !core.Quick(c) {
@@ -207,7 +219,7 @@ func checkC13(c *core.Ctx) []core.Floor {
 	}
 	var jobs []job
 	for p := 0; p < passes; p++ {
-		jobs = append(jobs, job{"log", p}, job{"race", p})
+		jobs = append(jobs, job{"log", p}, job{"race", p}, job{"log-slow", p})
 	}
 	core.ParallelFor(len(jobs), c.Workers, func(ji int) {
 		j := jobs[ji]
@@ -219,6 +231,9 @@ func checkC13(c *core.Ctx) []core.Floor {
 		if j.mode == "race" {
 			runC13Race(c, raceDrv, dir, sc, pass, j.pass)
 		} else {
+			if j.mode == "log-slow" {
+				c.Count("log_build_runs_with_slow_page_writes", 1)
+			}
 			runC13Log(c, plain, dir, sc, pass, j.pass)
 		}
 	})
